@@ -65,6 +65,9 @@ type Contract struct {
 	Iface    bool // contract of an interface method (behavioural subtyping)
 	Pure     bool // extern without effects: no frame, no allocation
 	Opaque   bool // module function deliberately treated as extern (body outside the subset)
+	Split    []*SExpr // interface-valued expressions: every post is proved once per dynamic type
+	SplitTxt []string
+	Safety   []string // properties under which safe.*/nofatal/nopanic obligations are generated (default: all)
 	GhostDo  []*GhostAssign
 	AtCalls  []*AtCall
 }
@@ -126,7 +129,7 @@ var clauseKeywords = map[string]bool{
 	"func": true, "extern": true, "pure": true, "ghost": true, "props": true, "requires": true, "ensures": true,
 	"modifies": true, "loop": true, "invariant": true, "decreases": true, "nofatal": true, "overflow": true,
 	"let": true, "trusted": true, "returns": true, "fatal": true, "assume": true, "callback": true,
-	"lemma": true, "sentinel": true, "iface": true, "share": true, "effectfree": true, "opaque": true, "end": true, "ghostdo": true, "atcall": true,
+	"lemma": true, "sentinel": true, "iface": true, "share": true, "effectfree": true, "opaque": true, "end": true, "ghostdo": true, "atcall": true, "split": true, "safety": true,
 }
 
 var labelRe = regexp.MustCompile(`^(requires|ensures|invariant|assume)\[([^\]]*)\]\s*(.*)$`)
@@ -439,6 +442,21 @@ func (cs *Contracts) parseFile(p *Program, pkgPath, file, src string) error {
 			}
 			cur.Lets = append(cur.Lets, Param{Name: strings.TrimSpace(rc.text[:i])})
 			cur.LetExprs = append(cur.LetExprs, e)
+		case "split":
+			if cur == nil {
+				return fail(rc, "split outside func")
+			}
+			x, err := parseSpecExpr(rc.text)
+			if err != nil {
+				return fail(rc, "%v", err)
+			}
+			cur.Split = append(cur.Split, x)
+			cur.SplitTxt = append(cur.SplitTxt, strings.TrimSpace(rc.text))
+		case "safety":
+			if cur == nil {
+				return fail(rc, "safety outside func")
+			}
+			cur.Safety = append(cur.Safety, strings.Fields(rc.text)...)
 		case "ghostdo":
 			if cur == nil {
 				return fail(rc, "ghostdo outside func")
